@@ -555,11 +555,11 @@ def _own_breaks(loop) -> List[ast.Break]:
         for c in ast.iter_child_nodes(n):
             if isinstance(c, (ast.For, ast.While, ast.FunctionDef, ast.Lambda)):
                 continue
-            if isinstance(c, ast.Break):
+            if isinstance(c, (ast.Break, ast.Return)):
                 out.append(c)
             visit(c)
     for b in loop.body:
-        if isinstance(b, ast.Break):
+        if isinstance(b, (ast.Break, ast.Return)):
             out.append(b)
         elif not isinstance(b, (ast.For, ast.While, ast.FunctionDef)):
             visit(b)
@@ -582,9 +582,9 @@ def _pt_search_loop(self, st: ast.For, leaf: Leaf, depth: int) -> Optional[List[
         body = self._walk(st.body, entry, depth)
     except AnalysisError:
         return None
-    breaking = [b for b in body if b.exit == "break"]
+    breaking = [b for b in body if b.exit in ("break", "return")]        # `return x` inside the loop leaves it like `break`
     passing = [b for b in body if b.exit in ("fall", "continue")]
-    if any(b.exit == "return" for b in body) or not breaking:
+    if not breaking:
         return None
     if any(len(b.events) != n_ev for b in passing):
         return None         # a non-breaking pass has effects: not a pure search
@@ -616,7 +616,10 @@ def _pt_search_loop(self, st: ast.For, leaf: Leaf, depth: int) -> Optional[List[
         o.store_at.update(b.store_at)
         for nm in killed:
             o.env[nm] = b.env.get(nm, sp.Symbol(nm, real=True))
-        o.exit = "fall"
+        if b.exit == "return":
+            o.exit, o.value = "return", b.value
+        else:
+            o.exit = "fall"
         out.append(o)
     return out
 
@@ -909,6 +912,8 @@ def holds(lit, assign) -> Optional[bool]:
         return e
     if isinstance(lit, (sp.Eq, sp.Ne)):
         a, b = val(lit.lhs), val(lit.rhs)
+        if a in (sp.true, sp.false) and b in (sp.true, sp.false):
+            return (a == b) if isinstance(lit, sp.Eq) else (a != b)
         in_ = sp.Function("in_")
         if b == sp.true and getattr(a, "func", None) == sp.Function("in_"):
             item, cont = a.args
